@@ -227,6 +227,19 @@ PROPS = {
                  gorace="log_path={sdir}/race suppress_equal_stacks=0 suppress_equal_addresses=0", timeout_quick=1200),
         ],
     ),
+    "C02": dict(
+        pkg="c02", level="exploration",
+        technique="schedule fuzzing with a harness-owned cooperative scheduler (rapid draws the schedule; testing/synctest bubbles), exhaustive schedule enumeration for small programs, free-running stress under the race detector; oracle = real-time-order history invariants",
+        level_text="Interleavings are inputs: generated programs run under a cooperative scheduler whose context switches happen at every point where user code runs, with the schedule drawn by rapid (so it shrinks and replays); programs of 2 tasks x <=2 operations on one type are run under every schedule; the same programs also run free on real goroutines under the race detector. The recorded history is checked against definitely-in / definitely-out delivery rules, Unsubscribe results, HandlerCount bounds and a quiescence probe.",
+        level_note="Points inside bus code with no user callback in between (e.g. between the once claim and the call) are not scheduling points; those windows are only exercised by the free-running mode. Search, not enumeration, beyond the small sub-space.",
+        crash_is_violation=True,
+        assumptions=COMMON_ASSUME + ["testing/synctest quiescence (synctest.Wait) is faithful", "no bus lock is held while user code runs - a violation of this shows as a 60 s hang and is reported"],
+        tests=[
+            dict(name="TestScheduled", quick=6000, thorough=60000, shards_thorough=8),
+            dict(name="TestExhaustiveSmall", quick=150, thorough=1500, shards_thorough=6, shrinktime="10s"),
+            dict(name="TestFreeRunning", quick=600, thorough=6000, shards_thorough=4, race=True, shrinktime="5s"),
+        ],
+    ),
 }
 
 HOOK_COMMITS = ["99604d0"]
